@@ -169,3 +169,24 @@ func TestHugeIsLALR(t *testing.T) {
 		t.Logf("seed %d: %d rules, %d states", seed, len(g.Rules), len(lr0.States))
 	}
 }
+
+func TestDenseIsLALR(t *testing.T) {
+	for seed := int64(1); seed <= 3; seed++ {
+		g := Dense(rand.New(rand.NewSource(seed)))
+		if !Usable(g) {
+			t.Fatalf("seed %d: not usable", seed)
+		}
+		lr0 := ref.BuildLR0(g.ToRef(), 1990)
+		if lr0 == nil {
+			t.Fatalf("seed %d: too many states", seed)
+		}
+		la := ref.BuildLALR(lr0, 20000)
+		if la == nil {
+			t.Fatalf("seed %d: LALR budget", seed)
+		}
+		if tab := ref.BuildTable(la); len(tab.Cells) != 0 {
+			t.Fatalf("seed %d: %d conflict cells", seed, len(tab.Cells))
+		}
+		t.Logf("seed %d: %d rules, %d states", seed, len(g.Rules), len(lr0.States))
+	}
+}
